@@ -80,8 +80,8 @@ def compile_ir(d, stem, driver_text, name='drv', opt='-O1'):
     return ll, None
 
 
-def prepare(work, shapes, chunk=8, raw=False, driver=driver_source, jobs=None):
-    """-> list of chunk dicts with 'll' (IR path) and 'shapes' (AST list)"""
+def prepare(work, shapes, chunk=8, raw=False, driver=driver_source, jobs=None, also_O0=False):
+    """-> list of chunk dicts with 'll' (IR path; 'll0' = the unoptimised IR when also_O0) and 'shapes' (AST list)"""
     chunks = chunked(shapes, chunk)
     tasks = []
     for i, ch in enumerate(chunks):
@@ -97,6 +97,10 @@ def prepare(work, shapes, chunk=8, raw=False, driver=driver_source, jobs=None):
         r['ll'] = ll
         if err:
             r['error'] = 'clang failed: ' + err
+        elif also_O0:
+            r['ll0'], err0 = compile_ir(r['dir'], r['stem'], driver(r['stem'], ch, raw), name='drv0', opt='-O0')
+            if err0:
+                r['error'] = 'clang -O0 failed: ' + err0
         return r
     res = C.run_pool(res, comp, workers=jobs or C.NCPU)
     for r in res:
@@ -298,21 +302,71 @@ def short_site(where):
 def run_task(task):
     """dispatch to a query function by name; always returns a list of result dicts (one per obligation)"""
     from . import cppqueries as Q
+    from . import llsym
+    import z3
     t0 = time.time()
+    nx = int(task.get('xcheck', 0) or 0)
+    llsym.XCHECK.update(max=nx, stride=int(task.get('xcheck_stride', 3)), seen=0, log=[])
     try:
         res = getattr(Q, task['query'])(task)
     except Exception as e:    # noqa
         import traceback
         res = [dict(oid=task['oid'], verdict='error', detail='%s: %s | %s' % (type(e).__name__, e, traceback.format_exc()[-600:]), desc=task.get('desc', {}))]
+    if nx and llsym.XCHECK['log']:
+        xc = crosscheck(llsym.XCHECK['log'])
+        for r in res:
+            r['xcheck'] = xc
+            if xc['disagree'] and r['verdict'] == 'discharged':
+                r['verdict'] = 'error'
+                r['detail'] = 'solver cross-check: z3 %s answered unsat but %s' % (z3.get_version_string(), xc['disagree'][0])
+    llsym.XCHECK.update(max=0, log=[])
     for r in res:
         r.setdefault('wall', round(time.time() - t0, 3))
     return res
+
+
+def crosscheck(queries, tlimit=20):
+    """every sampled 'unsat' of the in-process z3 is decided again by the z3 4.8.12 and cvc5 1.0.3 binaries.
+    'sat' from either is a disagreement (machinery error); timeout / unknown / unsupported construct is inconclusive."""
+    import tempfile
+    out = dict(queries=len(queries), disagree=[], z3_4_8=dict(unsat=0, inconclusive=0), cvc5=dict(unsat=0, inconclusive=0))
+    for text in queries:
+        body = text if '(check-sat)' in text else text + '\n(check-sat)\n'
+        with tempfile.NamedTemporaryFile('w', suffix='.smt2', dir=C.workdir('xcheck', fresh=False), delete=False) as f:
+            f.write(body)
+            path = f.name
+        try:
+            for key, cmd in (('z3_4_8', ['/usr/bin/z3', '-T:%d' % tlimit, path]), ('cvc5', ['cvc5', '--tlimit=%d' % (tlimit * 1000), path])):
+                rc, o, e = C.sh(cmd, timeout=tlimit + 10)
+                ans = (o or '').strip().splitlines()[:1]
+                ans = ans[0].strip() if ans else ''
+                if '(error' in (o or '') or '(error' in (e or ''):
+                    ans = 'error'
+                if ans == 'unsat':
+                    out[key]['unsat'] += 1
+                elif ans == 'sat':
+                    keep = os.path.join(C.workdir('xcheck', fresh=False), 'disagree-%s-%d.smt2' % (key, abs(hash(body)) % 10 ** 8))
+                    with open(keep, 'w') as g:
+                        g.write(body)
+                    out['disagree'].append('%s answers sat (%s)' % (key, keep))
+                else:
+                    out[key]['inconclusive'] += 1
+        finally:
+            os.unlink(path)
+    return out
 
 
 def run_tasks(tasks, jobs=None):
     jobs = jobs or C.NCPU
     if not tasks:
         return []
+    # solver cross-check on a sample: every k-th task re-decides up to n of its 'unsat' answers with two other solvers
+    tier = os.environ.get('VF_TIER', 'quick')
+    every = int(os.environ.get('VF_XCHECK_EVERY', '12' if tier == 'quick' else '4'))
+    if every > 0:
+        for i, t in enumerate(tasks):
+            if i % every == 0:
+                t.setdefault('xcheck', 3)
     ctx = multiprocessing.get_context('fork')
     budget = C.budget_s()
     deadline = (time.time() + budget) if budget else None
@@ -491,17 +545,37 @@ def to_obligations(prop, results, chunks, check, engine='E2-llsym', e_of=lambda 
     obs = []
     nrep = 0
     by_idx = dict((c['idx'], c) for c in chunks)
+    ev_rs = [r for r in results if r.get('engine_validation') and r['verdict'] == 'discharged']
+    if ev_rs:
+        C.run_pool([by_idx[i] for i in sorted(set(r['chunk'] for r in ev_rs))], build_replay)
+        nats = C.run_pool(ev_rs, lambda r: native_decode(by_idx[r['chunk']], r['desc']['shape'], e_of(r), bytes.fromhex(r['engine_validation']['input_hex'])))
+        for r, n in zip(ev_rs, nats):
+            r['_native'] = n
     for r in sorted(results, key=lambda r: r['oid']):
         o = Obligation(r['oid'], engine, dict(r.get('desc', {})))
         o.paths = r.get('paths', 0)
         o.solver_s = r.get('solver_s', 0.0)
         o.wall_s = r.get('wall', 0.0)
         o.nontrivial = bool(r.get('nontrivial'))
+        if r.get('xcheck'):
+            xc = r['xcheck']
+            o.desc['solver_crosscheck'] = dict(unsat_queries_rechecked=xc['queries'], z3_4_8_12=xc['z3_4_8'], cvc5_1_0_3=xc['cvc5'], disagreements=len(xc['disagree']))
         if r.get('ub_pointer'):
             o.desc['ub_pointer_findings'] = [dict(what=u['what'], site=u['site']) for u in r['ub_pointer']][:4]
         v = r['verdict']
         if v == 'discharged':
             o.verdict = DISCHARGED
+            ev = r.get('engine_validation')
+            if ev is not None:
+                # executor-vs-native differential on concrete bytes: a difference is a machinery error, never a violation
+                nat = r['_native']
+                same = (not nat.get('error') and nat.get('ok') == ev['ok'] and
+                        (not ev['ok'] or (nat.get('gbs') == ev['gbs'] and nat.get('written') == ev['written'] and nat.get('out') == ev['out'])))
+                o.desc['engine_validation'] = 'IR executor and native build agree on %d concrete bytes' % (len(ev['input_hex']) // 2)
+                if not same:
+                    o.verdict = ERROR
+                    o.detail = 'IR executor disagrees with the native build on concrete input %s: executor %r native %r' % (
+                        ev['input_hex'], dict((k, ev[k]) for k in ('ok', 'gbs', 'written', 'out')), dict((k, nat.get(k)) for k in ('ok', 'gbs', 'written', 'out', 'error')))
         elif v == 'inconclusive':
             o.verdict = INCONCLUSIVE
             o.detail = r.get('detail', '')
